@@ -23,3 +23,54 @@ Qed.
 
 Example ex_hist : run19_hist [] = Tok.L [] /\ forall x, run19_hist [x] = Tok.L [step19 (Tok.L []) x].
 Proof. split; reflexivity. Qed.
+
+(* ------------------------------------------------------------------ the staged state machine *)
+
+(** after any of the three routes, from ANY previous state, the object holds exactly the fresh analysis of the current network *)
+Lemma route_fresh style x st : route style x st = route 0 x a_init.
+Proof.
+  unfold route, route_with, do_one_with, do_linkage, do_summary. simpl.
+  destruct style as [|[|[|n]]]; simpl; destruct (fresh_sum x) as [[cs arcs] s]; simpl; reflexivity.
+Qed.
+
+Lemma obs_fresh_run19 x : hs_net x <> [] ->
+  obs_of_state x (route 0 x a_init) = run19 (hs_net x) (hs_iso x) (hs_rc x) (hs_ccs x).
+Proof.
+  intros NE. unfold route, route_with, do_one_with, do_linkage, do_summary, fresh_sum, obs_of_state, run19. simpl.
+  destruct (hs_net x) as [|e net] eqn:E; [congruence|].
+  unfold compute_summary. destruct (complex_graph (e :: net) (hs_iso x)) as [cs arcs]. reflexivity.
+Qed.
+
+Lemma sm_fold steps : forall st out,
+  (snd (fold_left sm_step steps (st, out))) =
+  out ++ flat_map (fun sx => [run19 (hs_net (snd sx)) (hs_iso (snd sx)) (hs_rc (snd sx)) (hs_ccs (snd sx));
+                              run19 (hs_net (snd sx)) (hs_iso (snd sx)) (hs_rc (snd sx)) (hs_ccs (snd sx))]) steps.
+Proof.
+  induction steps as [|sx steps IH]; intros st out; simpl; [rewrite app_nil_r; reflexivity|].
+  unfold sm_step at 2. destruct (hs_net (snd sx)) as [|e net] eqn:E.
+  - simpl. rewrite IH. rewrite <- app_assoc. reflexivity.
+  - rewrite IH. rewrite <- app_assoc. f_equal. rewrite route_fresh.
+    rewrite (obs_fresh_run19 (snd sx)) by (rewrite E; discriminate). rewrite E. reflexivity.
+Qed.
+
+(** a history through the state machine = fresh analyses of the step networks (each recorded twice: re-used, brand-new) *)
+Lemma run19_sm_stateless steps :
+  run19_sm steps = Tok.L (flat_map (fun sx => [run19 (hs_net (snd sx)) (hs_iso (snd sx)) (hs_rc (snd sx)) (hs_ccs (snd sx));
+                                               run19 (hs_net (snd sx)) (hs_iso (snd sx)) (hs_rc (snd sx)) (hs_ccs (snd sx))]) steps).
+Proof. unfold run19_sm. f_equal. apply (sm_fold steps a_init []). Qed.
+
+(** BEFORE /repo 7d0fc98 (compute_summary kept the derived fields): on a re-used analyzer, route 2 after an edit reports the
+    PREVIOUS network's class deficiencies next to the new deficiency.  A -> 2A -> 3A analysed, 2A -> 3A removed, route 2:
+    deficiency 0 but class deficiencies [1] (fresh: [0]) — their sum exceeds the deficiency. *)
+Definition lad_r1 : rxn := ([49%N], [114%N], [([65%N], 1%Z)], [([65%N], 2%Z)]).
+Definition lad_r2 : rxn := ([50%N], [114%N], [([65%N], 2%Z)], [([65%N], 3%Z)]).
+Definition only_r (r : nat) : rcert := RCert r [] [] [] [] 0%Z.
+Definition lad_x1 : hist_step := ([lad_r1; lad_r2], [], only_r 1, [only_r 1]).
+Definition lad_x2 : hist_step := ([lad_r1], [], only_r 1, [only_r 1]).
+Definition lad_stale : astate := route_old 2 lad_x2 (route_old 0 lad_x1 a_init).
+Definition st_deficiency (st : astate) : option Z := option_map (fun t => deficiency (snd t)) (a_sum st).
+
+Lemma stale_summary_route_refuted :
+  a_ld lad_stale = Some [1%Z] /\ st_deficiency lad_stale = Some 0%Z /\
+  a_ld (route 2 lad_x2 (route 0 lad_x1 a_init)) = Some [0%Z] /\ a_ld (route 0 lad_x2 a_init) = Some [0%Z].
+Proof. repeat split; vm_compute; reflexivity. Qed.
